@@ -281,12 +281,12 @@ P_INI = ["warn_return_any=True", "warn_return_any=no", "no_warn_return_any=True"
          "allow_untyped_defs=True", "strict_optional=False", "no_strict_optional=False", "show_error_codes=False",
          "hide_error_codes=True", "show_error_context=True", "no_show_error_context=1",
          "disable_error_code=attr-defined", "disable_error_code=attr-defined+misc", "enable_error_code=attr-defined",
-         "enable_error_code=name-defined"]
+         "enable_error_code=name-defined", "strict=True", "strict=no"]
 P_CLI = ["--warn-return-any", "--no-warn-return-any", "--disallow-untyped-defs", "--allow-untyped-defs",
          "--strict-optional", "--no-strict-optional", "--hide-error-codes", "--show-error-codes",
          "--show-error-context", "--hide-error-context", "--disable-error-code=attr-defined",
          "--disable-error-code=misc", "--enable-error-code=attr-defined", "--enable-error-code=name-defined",
-         "--always-true=FOO", "--always-true=BAR"]
+         "--always-true=FOO", "--always-true=BAR", "--strict"]
 
 
 def real_process(ctx: Ctx, ini: list[str], cli: list[str], n: int) -> str:
@@ -345,19 +345,30 @@ def process_search(ctx: Ctx, ini, cli, real, mo) -> None:
     """The documented rule for ordinary options: command line beats `[mypy]`, `[mypy]` beats the default."""
     import mypy.main as mm
     from mypy.options import Options
-    parser, _, _ = mm.define_options()
+    parser, _, strict_assign = mm.define_options()
     dflt = Options()
     by_flag = {s: a for a in parser._actions for s in a.option_strings}
+    # documented: defaults < strict of [mypy] < explicit keys of [mypy] (either order) < --strict < explicit flags
     want: dict = {}
+    if any(real_parse("ini", *i.split("=", 1)) == "strict" and i.split("=", 1)[1].lower() in ("true", "yes", "1", "on") for i in ini):
+        want.update(dict(strict_assign))
+    for i in ini:
+        out = real_parse("ini", *i.split("=", 1))
+        if out.startswith("sets ") and "=" in out:
+            k, v = out[5:].split("=")
+            want[k] = bool(int(v))
+    if "--strict" in cli:
+        want.update(dict(strict_assign))
     for c in cli:
         a = by_flag.get(c.split("=")[0])
-        if a is not None and isinstance(a.const, bool):
+        if a is not None and isinstance(a.const, bool) and not a.dest.startswith("special-opts"):
             want[a.dest] = a.const
     got = dict(kv.split("=", 1) for kv in real.split(" ") if "=" in kv and not kv.startswith(("dis=", "en=", "imi=")))
     for k, v in want.items():
         if k in got and got[k] != show_val(v):
             report(ctx, {"class": "precedence-cli-config", "option": k},
-                       f"command line {cli} over [mypy] {ini}: {k} = {got[k]}, the command line says {show_val(v)}",
+                       f"[mypy] {ini} + command line {cli}: {k} = {got[k]}; documented (explicit settings override strict, "
+                       f"command line overrides [mypy]): {show_val(v)}",
                        {"kind": "process", "ini": ini, "cli": cli, "real": real})
             return
     ctx.violation(f"process_options correspondence broken for [mypy] {ini} + command line {cli}: code [{real}] model [{mo}]",
